@@ -4193,6 +4193,15 @@ func (l *Lowerer) lowerLocalVar(v *parser.VarDecl, target *[]ir.Statement) error
 			Pointer: exprHandle,
 			Value:   *initHandle,
 		}})
+	} else if initHandle == nil && l.isInsideLoop {
+		// A variable declared without initializer starts from zero every time
+		// its declaration executes; LocalVariable storage is per function, so
+		// inside a loop it must be re-zeroed explicitly.
+		zero := l.interruptEmitter(ir.Expression{Kind: ir.ExprZeroValue{Type: typeHandle}})
+		*target = append(*target, ir.Statement{Kind: ir.StmtStore{
+			Pointer: exprHandle,
+			Value:   zero,
+		}})
 	}
 
 	// Track declaration for unused variable warnings
